@@ -178,7 +178,13 @@ class ProgProp:
         layout and operand arithmetic below are this harness's"""
         key = ("asmtab-old", v)
         if key not in ctx.cache:
-            opc = rw.xd().disasm.get_opcode(ga.vt(v.replace("pypy", "")), v.endswith("pypy"))
+            # the version's own table module, by name: the version -> table lookup xdis decodes with is then checked too
+            import importlib
+            rw.xd()
+            try:
+                opc = importlib.import_module("xdis.opcodes.opcode_%s%s" % (v.replace("pypy", "").replace(".", ""), "pypy" if v.endswith("pypy") else ""))
+            except ImportError:
+                opc = rw.xd().disasm.get_opcode(ga.vt(v.replace("pypy", "")), v.endswith("pypy"))
             hasjrel, hasjabs = set(opc.hasjrel), set(opc.hasjabs)
             cats = dict((c_, set(getattr(opc, c_))) for c_ in ("hasconst", "hasname", "haslocal", "hasfree", "hascompare"))
             # which opcodes jump, and how, is taken from the family's real interpreter wherever the opcode still exists
